@@ -155,6 +155,35 @@ def _id_pack_facts(repo):
         raise Unrecognised("get_id_pack: netref test " + first)
     if [_u(x) for x in node.body] != ["return obj.____id_pack__"]:
         raise Unrecognised("get_id_pack: netref branch")
+    if not (len(node.orelse) == 1 and isinstance(node.orelse[0], ast.If)):
+        raise Unrecognised("get_id_pack: module branch")
+    mod = node.orelse[0]
+    mod_returns, mod_names = [], []
+    for n in ast.walk(ast.Module(body=mod.body, type_ignores=[])):
+        if isinstance(n, ast.Return):
+            if not (isinstance(n.value, ast.Tuple) and len(n.value.elts) == 3):
+                raise Unrecognised("get_id_pack: module branch returns " + _u(n))
+            mod_returns.append([_u(e) for e in n.value.elts])
+        elif isinstance(n, ast.Assign) and _u(n.targets[0]) == "name_pack":
+            mod_names.append(_u(n.value))
+        elif isinstance(n, ast.Expr) and not isinstance(n.value, ast.Constant):
+            raise Unrecognised("get_id_pack: module branch has a side effect: " + _u(n))
+    # names read anywhere in the function that nothing defines (a typo such as obj__module__ lands here)
+    import builtins
+    assigned = {a.arg for a in fn.args.args}
+    for n in ast.walk(fn):
+        if isinstance(n, ast.Name) and isinstance(n.ctx, ast.Store):
+            assigned.add(n.id)
+    top = set()
+    for n in parse(repo, SRC_LIB).body:
+        if isinstance(n, (ast.Import, ast.ImportFrom)):
+            top.update((a.asname or a.name).split(".")[0] for a in n.names)
+        elif isinstance(n, (ast.FunctionDef, ast.ClassDef)):
+            top.add(n.name)
+        elif isinstance(n, ast.Assign):
+            top.update(t.id for t in n.targets if isinstance(t, ast.Name))
+    free = sorted({n.id for n in ast.walk(fn) if isinstance(n, ast.Name) and isinstance(n.ctx, ast.Load)
+                   and n.id not in assigned and n.id not in top and not hasattr(builtins, n.id)})
     inst = cls = None
     while True:
         if len(node.orelse) == 1 and isinstance(node.orelse[0], ast.If):
@@ -176,7 +205,8 @@ def _id_pack_facts(repo):
         return [_u(e) for e in ret.value.elts], _u(stmts[0])
     fi, ni = fields(inst, "instance")
     fc, nc = fields(cls, "class")
-    return {"instance": fi, "class": fc, "instance_name": ni, "class_name": nc, "netref_test_on_type": first.startswith("hasattr(type")}
+    return {"instance": fi, "class": fc, "instance_name": ni, "class_name": nc, "netref_test_on_type": first.startswith("hasattr(type"),
+            "module_test": _u(mod.test), "module_returns": mod_returns, "module_names": mod_names, "free_names": free}
 
 
 def translate(repo):
@@ -205,7 +235,13 @@ def translate(repo):
         return [typed("id_pack_instance", "list string", coq_list(coq_string(x) for x in f["instance"])),
                 typed("id_pack_class", "list string", coq_list(coq_string(x) for x in f["class"])),
                 typed("id_pack_instance_name", "string", coq_string(f["instance_name"])),
-                typed("id_pack_class_name", "string", coq_string(f["class_name"]))]
+                typed("id_pack_class_name", "string", coq_string(f["class_name"])),
+                typed("id_pack_netref_test_on_type", "bool", coq_bool(f["netref_test_on_type"])),
+                typed("id_pack_module_test", "string", coq_string(f["module_test"])),
+                typed("id_pack_module_returns", "list (list string)",
+                      coq_list(coq_list(coq_string(x) for x in r) for r in f["module_returns"])),
+                typed("id_pack_module_names", "list string", coq_list(coq_string(x) for x in f["module_names"])),
+                typed("id_pack_undefined_names", "list string", coq_list(coq_string(x) for x in f["free_names"]))]
     guarded("id_pack", t_idpack)
 
     def t_copy():
@@ -244,6 +280,7 @@ def translate(repo):
         tree = parse(repo, SRC_CLASSIC)
         for nm in ("obtain", "deliver"):
             out.append(shape("classic." + nm, func_shape(find_func(tree, nm))))
+        out.append(shape("lib.get_id_pack", func_shape(find_func(parse(repo, SRC_LIB), "get_id_pack"))))
         return out
     guarded("shapes", shapes)
     return items
